@@ -44,6 +44,13 @@ VCLS = {
     "f32": V.Float, "f64": V.Double, "char": V.Char, "byte": V.Byte,
 }
 CODE_OF = {v: k for k, v in VCLS.items()}
+# ctypes element types used for the value forms "ctypes array" and "scalar ctypes instance of the field's own type"
+CT = {
+    "i8": ctypes.c_int8, "i16": ctypes.c_int16, "i32": ctypes.c_int32, "i64": ctypes.c_int64,
+    "u8": ctypes.c_uint8, "u16": ctypes.c_uint16, "u32": ctypes.c_uint32, "u64": ctypes.c_uint64,
+    "f32": ctypes.c_float, "f64": ctypes.c_double, "byte": ctypes.c_ubyte,
+}
+CT_CODE = {v: k for k, v in CT.items() if k != "byte"}  # c_ubyte is c_uint8
 
 INT_RANGE = {
     "i8": (-(2 ** 7), 2 ** 7 - 1), "i16": (-(2 ** 15), 2 ** 15 - 1), "i32": (-(2 ** 31), 2 ** 31 - 1),
@@ -98,6 +105,11 @@ def dec(j: Any):
         return make_struct(j)
     if "A" in j:
         return make_array_source(j)
+    if "C" in j:  # ctypes array: {"C": element code, "v": [encoded python values]}
+        vals = [dec(x) for x in j["v"]]
+        return (CT[j["C"]] * len(vals))(*vals)
+    if "c" in j:  # scalar ctypes instance: {"c": code, "v": encoded python value}
+        return CT[j["c"]](dec(j["v"]))
     if "none" in j:
         return None
     if "t" in j:
@@ -129,6 +141,10 @@ def show(v: Any) -> str:
         return f"<{type(v).__name__} {bytes(v)[:16].hex()}>"
     if isinstance(v, (V.ArrayField, V.StructArray)):
         return f"<bound {v!r}>".split(" at 0x")[0] + ">"
+    if isinstance(v, ctypes.Array):
+        return f"({v._type_.__name__}*{len(v)})({', '.join(show(x) for x in list(v)[:12])}{', ...' if len(v) > 12 else ''})"
+    if isinstance(v, ctypes._SimpleCData):
+        return f"{type(v).__name__}({v.value!r})"
     if isinstance(v, (list, tuple)):
         inner = ", ".join(show(x) for x in v[:12]) + (", ..." if len(v) > 12 else "")
         return ("[%s]" if isinstance(v, list) else "(%s)") % inner
@@ -604,6 +620,15 @@ def classify_struct(scls: type, v: Any):
 def classify_elem(fi: FI, v: Any, in_seq: bool):
     """Classify one element for an array field (or the value of a scalar field)."""
     k = fi.kind
+    if isinstance(v, ctypes._SimpleCData):
+        # an instance of the field's own ctype cannot hold an out-of-domain value (inf excepted); other ctypes
+        # scalar types are decided by no document
+        own = CT.get(fi.code if k in ("int", "iarr", "float", "farr") else "byte" if k in ("byte", "bytes") else None)
+        if own is not None and type(v) is own and not in_seq:
+            if k in ("float", "farr") and not math.isfinite(v.value):
+                return "dc", "ctypes-scalar-nonfinite", None  # the isinstance fast path: decided by no document
+            return "in", "", v.value
+        return "dc", "ctypes-scalar", None
     if k in ("int", "iarr"):
         return classify_int(fi.code, v)
     if k in ("float", "farr"):
